@@ -292,6 +292,12 @@ func genC16(r *R, sc *Scenario, tier string) {
 			p.Namespace = Pick(r, "ns1", "ns2")
 		}
 		if r.P(200) {
+			p.Disabled = true // not started by itself, but loaded like any other (it can be started on request)
+		}
+		if r.P(100) {
+			p.Foreground = true
+		}
+		if r.P(200) {
 			p.LaunchTimeout = Pick(r, -1, 0, 3)
 			if p.LaunchTimeout < 1 {
 				p.LaunchTimeout = 0 // rendered only when non-zero; zero and absent mean "default"
@@ -312,7 +318,7 @@ func genC16(r *R, sc *Scenario, tier string) {
 		}
 		if i > 0 && r.P(300) {
 			// (a dependency on a replicated process is not accepted by the loader: not generated)
-			if d := spec.Procs[r.Intn(i)]; d.Replicas <= 1 {
+			if d := spec.Procs[r.Intn(i)]; d.Replicas <= 1 && (!d.Disabled || p.Disabled) {
 				p.DependsOn = map[string]string{d.Name: "process_started"}
 			}
 		}
